@@ -307,6 +307,7 @@ pub fn encoder_struct_cases(file: &[u8], max_frames: usize, max_frame_bytes: usi
         if w[1] - w[0] > max_frame_bytes { continue; }
         let fb = &file[w[0]..w[1]];
         let o = struct_obs(fb, Some(&streaminfo));
+        if o.decoded.as_ref().map(|d| d.iter().map(|c| c.len()).sum::<usize>()).unwrap_or(0) > super::MODEL_MAX_SAMPLES { continue; }
         out.push(struct_case(fb, Some(&body), &o, &[("src", esc("encoder"))]));
     }
     out
